@@ -99,12 +99,19 @@ class Harness:
             self.flags.add("write-after-read")
             self.written_since_read.add(k)
 
-    def add_redirect(self, base, ns, target_base):
-        self.ops.append(["redirect", base, ns, target_base])
+    def add_redirect(self, base, ns, target_base, with_body=None):
+        self.ops.append(["redirect", base, ns, target_base, with_body])
         title = (self.nsm.prefix(ns) if ns else "") + base
         target = (self.nsm.prefix(ns) if ns else "") + target_base
-        self.guard(self.ctx.add_page, title, ns, None, target)
-        self.model.add(title, ns, None, target)
+        # dump ingestion stores a redirect page together with its text:
+        # every other redirect row gets one, so that a reader that stops on a
+        # redirect row instead of its target is visible through the body too
+        self.n_redirects = getattr(self, "n_redirects", 0) + 1
+        if with_body is None:
+            with_body = self.n_redirects % 2 == 1
+        rbody = f"#REDIRECT [[{target}]]" if with_body else None
+        self.guard(self.ctx.add_page, title, ns, rbody, target)
+        self.model.add(title, ns, rbody, target)
         k = (ns, self.model.stored_title(title, ns))
         if k in self.read_keys:
             self.flags.add("write-after-read")
@@ -132,6 +139,17 @@ class Harness:
             if ex != (want is not None):
                 self.fail("exists", f"page_exists({spelling!r}, {q_ns}) = {ex} "
                           f"but lookup gives {want}", spelling=label)
+        gr = rec_of_page(self.guard(self.ctx.get_page_resolve_redirect,
+                                    spelling, q_ns))
+        wr = self.model.resolve(spelling, q_ns)
+        if want is not None and want["redirect_to"] is not None:
+            self.flags.add("read-through-redirect")
+            t2 = self.model.lookup(want["redirect_to"], q_ns)
+            if t2 is not None and t2["redirect_to"] is not None:
+                self.flags.add("redirect-to-redirect")
+        if gr != wr:
+            self.fail("resolve", f"get_page_resolve_redirect({spelling!r}, "
+                      f"{q_ns}) = {gr} expected {wr}", spelling=label)
         gb = self.guard(self.ctx.get_page_body, spelling, q_ns)
         wb = self.model.body(spelling, q_ns)
         if gb != wb:
@@ -350,6 +368,58 @@ def shard_exhaustive(idx, nshards, maxlen, stride, known):
     return part.to_dict()
 
 
+GRAPH_BASES = ["Foo", "foo", "Bar"]
+
+
+def graph_states():
+    """Every assignment of {absent, content, redirect (with / without stored
+    text) to each of the three titles} to three template titles, two of which
+    differ only in the case of the first letter: chains, cycles, self loops,
+    redirects to case twins and to missing pages."""
+    opts = [None, ("content",)]
+    for t in GRAPH_BASES:
+        opts += [("redirect", t, False), ("redirect", t, True)]
+    return itertools.product(opts, repeat=len(GRAPH_BASES))
+
+
+def shard_graph(idx, nshards, known):
+    env.setup()
+    part = Part()
+    buckets = {}
+    for n, state in enumerate(graph_states()):
+        if n % nshards != idx:
+            continue
+        seq = []
+        for b, o in zip(GRAPH_BASES, state):
+            if o is None:
+                continue
+            if o[0] == "content":
+                seq.append(["add", b, 10, True, "body of " + b, "wikitext"])
+            else:
+                seq.append(["redirect", b, 10, o[1], o[2]])
+        for b in GRAPH_BASES:
+            seq.append(["read", b, 10, "canonical", None, False])
+            seq.append(["read", b, 10, "no-prefix", None, False])
+        seq.append(["commit"])
+        seq.append(["fresh-scan"])
+        f, hx = run_sequence(seq)
+        part.case(h(["graph", n]), "redirect-to-redirect" in hx.flags,
+                  classes=["redirect-graph"] + sorted(
+                      c for c in hx.flags if "redirect" in c),
+                  sample=seq[:3])
+        if f is not None:
+            if any(sig_matches(k["signature"], f.signature) for k in known):
+                part.excluded["known"] += 1
+                continue
+            key = h(f.signature)
+            if key not in buckets or len(f.replay["ops"]) < len(
+                    buckets[key].replay["ops"]):
+                buckets[key] = f
+    for f in buckets.values():
+        part.violation(f.signature, f.what, f.replay)
+    return part.to_dict()
+
+
 def _dispatch(fn, args):
     return fn(*args)
 
@@ -366,6 +436,7 @@ def run(run):
         jobs = [(shard_exhaustive, (i, 16, 4, 1, run.known)) for i in range(16)]
         jobs += [(shard_stateful, (i, run.seed, 1500, 40, run.known))
                  for i in range(16)]
+    jobs += [(shard_graph, (i, procs, run.known)) for i in range(procs)]
     for d in par.map_shards(_dispatch, jobs, procs):
         run.merge(d)
     run.exhaustive = True
@@ -375,13 +446,16 @@ def run(run):
         + " over a 2-title x 2-namespace sub-universe with 23 concrete "
         "operations (add in two spellings, overwrite, redirect, reads through "
         "canonical / prefix-less / lower-first spellings, commit, fresh-"
-        "context scan), sequences without any read skipped; plus a Hypothesis "
+        "context scan), sequences without any read skipped; every redirect "
+        "graph on three template titles (two differing in first-letter case; "
+        "each absent / content / redirect to any of the three, with or without "
+        "stored redirect text), every title read through two spellings; plus a Hypothesis "
         "RuleBasedStateMachine (7 base titles x 5 namespaces, up to 16 read "
         "spellings per title, bodies with inclusion control, four content "
         "models, redirects, commit, scan through a new context) to length "
         + ("30" if quick else "40")
         + ". Oracle: R-store reference model compared after every read "
-        "(get_page, page_exists, get_page_body, expand of {{title}}) and "
+        "(get_page, page_exists, get_page_resolve_redirect, get_page_body, expand of {{title}}) and "
         "against get_all_pages() of a brand-new context. Non-trivial = "
         "history with a read-after-write-after-read of one key or a read "
         "through a non-canonical spelling; distinct by hash of the operation "
